@@ -426,32 +426,38 @@ def Mem.flushTantivy (m : Mem) (ft : Nat) : Mem :=
 def fullLexRebuild (frames : List Frame) : List Nat :=
   (frames.filter (fun f => f.status == .active && f.idx)).map (·.id)
 
+/-- the lexical part of `rebuild_indexes`: full rebuild when the engine is dirty (instant-index ids
+    must be replaced) or absent or nothing was inserted, otherwise the inserted frames are added; the
+    engine is then flushed (one `Lex` WAL record) -/
+def Mem.rebuildLex (m1 : Mem) (inserted : List Nat) (ft : Nat) : Mem :=
+  if m1.lexEnabled then
+    let docs :=
+      if m1.tantivyDirty then fullLexRebuild m1.frames
+      else if m1.engine && !inserted.isEmpty then
+        -- incremental path: the inserted frames that are active and have index text are added
+        m1.lexDocs ++ inserted.filter (fun id => match m1.frames[id]? with
+          | some f => f.status == .active && f.idx
+          | none => false)
+      else fullLexRebuild m1.frames
+    { m1 with lexDocs := docs, engine := true, tantivyDirty := true }.flushTantivy ft
+  else m1
+
+/-- the vector part of `rebuild_indexes` (`build_vec_artifact`): surviving in-memory entries of
+    active frames, then the new embeddings -/
+def Mem.rebuildVec (m2 : Mem) (newEmbs : List VecEnt) : Mem :=
+  if m2.vecEnabled then
+    let surviving := (m2.vec.getD []).filter (fun e => isActive m2.frames e.id)
+    let ents := surviving ++ newEmbs
+    { m2 with vec := some ents, pVec := some ents, vecManifest := true,
+              vecDim := match ents with | e :: _ => e.dim | [] => 0 }
+  else { m2 with vec := none, vecManifest := false, pVec := none }
+
 /-- `rebuild_indexes(new_vec_docs, inserted_frame_ids)`; `ft` = trace input: footer position
     (relative) after the rebuilt indexes were written. -/
 def Mem.rebuildIndexes (m : Mem) (newEmbs : List VecEnt) (inserted : List Nat) (ft : Nat) : Mem :=
   if m.frames.isEmpty && !m.lexEnabled && !m.vecEnabled then m else
-  let m1 := { m with dataEnd := m.payloadEnd, time := some (timeEntries m.frames) }
-  -- lexical engine
-  let m2 : Mem :=
-    if m1.lexEnabled then
-      let docs :=
-        if m1.tantivyDirty then fullLexRebuild m1.frames
-        else if m1.engine && !inserted.isEmpty then
-          -- incremental path: the inserted frames that are active and have index text are added
-          m1.lexDocs ++ inserted.filter (fun id => match m1.frames[id]? with
-            | some f => f.status == .active && f.idx
-            | none => false)
-        else fullLexRebuild m1.frames
-      { m1 with lexDocs := docs, engine := true, tantivyDirty := true }.flushTantivy ft
-    else m1
-  -- vector index (`build_vec_artifact`)
-  let m3 : Mem :=
-    if m2.vecEnabled then
-      let surviving := (m2.vec.getD []).filter (fun e => isActive m2.frames e.id)
-      let ents := surviving ++ newEmbs
-      { m2 with vec := some ents, pVec := some ents, vecManifest := true,
-                vecDim := match ents with | e :: _ => e.dim | [] => 0 }
-    else { m2 with vec := none, vecManifest := false, pVec := none }
+  let m1 : Mem := { m with dataEnd := m.payloadEnd, time := some (timeEntries m.frames) }
+  let m3 := (m1.rebuildLex inserted ft).rebuildVec newEmbs
   -- memories track / sketch track are persisted with the rebuilt TOC
   { m3 with
     pCards := if m3.cards.isEmpty then none else some (m3.cards, m3.enrRecs)
@@ -567,24 +573,33 @@ def embDims (a : PutArgs) : List Nat :=
   (match a.emb with | some (d, _) => if d = 0 then [] else [d] | none => []) ++
   a.cdims.filter (· ≠ 0)
 
+/-- the parent entry of a put -/
+def parentIns (a : PutArgs) (supersedes reuse : Option Nat) : Ins :=
+  let n := a.chunks.length
+  { ts := a.ts, uri := a.uri, kind := a.kind, track := a.track, tags := a.tags, labels := a.labels,
+    role := a.role, parentSeq := none, chunkIndex := none,
+    chunkCount := if n = 0 then none else some n,
+    manifest := if n = 0 then none else some n,
+    supersedes := supersedes, reuseFrom := reuse, content := a.content, len := a.len, emb := a.emb,
+    idx := a.st, zstd := a.zstd }
+
+/-- the entry of chunk number `i` (of `n`) -/
+def chunkIns (a : PutArgs) (pseq n i : Nat) (c : ChunkArg) : Ins :=
+  { ts := a.ts, uri := a.uri.map (fun u => s!"{u}#page-{i + 1}"), kind := a.kind, track := a.track,
+    tags := a.tags, labels := a.labels, role := .chunk, parentSeq := some pseq,
+    chunkIndex := some i, chunkCount := some n, manifest := none, supersedes := none,
+    reuseFrom := none, content := c.content, len := c.len, emb := c.emb, idx := true, zstd := true }
+
+/-- chunk records `i, i+1, …` with sequence numbers `pseq + 1 + i, …` -/
+def chunkRecords (a : PutArgs) (pseq n : Nat) : List ChunkArg → Nat → List (Nat × Entry)
+  | [], _ => []
+  | c :: cs, i => (pseq + 1 + i, Entry.insert (chunkIns a pseq n i c)) :: chunkRecords a pseq n cs (i + 1)
+
 /-- the WAL records one accepted `put_internal` appends: the parent entry then the chunk entries
     (`parent_sequence` = the parent's sequence number) -/
 def putRecords (seq0 : Nat) (a : PutArgs) (supersedes reuse : Option Nat) : List (Nat × Entry) :=
-  let n := a.chunks.length
-  let parent : Ins :=
-    { ts := a.ts, uri := a.uri, kind := a.kind, track := a.track, tags := a.tags, labels := a.labels,
-      role := a.role, parentSeq := none, chunkIndex := none,
-      chunkCount := if n = 0 then none else some n,
-      manifest := if n = 0 then none else some n,
-      supersedes := supersedes, reuseFrom := reuse, content := a.content, len := a.len, emb := a.emb,
-      idx := a.st, zstd := a.zstd }
-  (seq0 + 1, Entry.insert parent) ::
-  (a.chunks.zipIdx.map fun (c, i) =>
-    (seq0 + 2 + i, Entry.insert
-      { ts := a.ts, uri := a.uri.map (fun u => s!"{u}#page-{i + 1}"), kind := a.kind, track := a.track,
-        tags := a.tags, labels := a.labels, role := .chunk, parentSeq := some (seq0 + 1),
-        chunkIndex := some i, chunkCount := some n, manifest := none, supersedes := none,
-        reuseFrom := none, content := c.content, len := c.len, emb := c.emb, idx := true, zstd := true }))
+  (seq0 + 1, Entry.insert (parentIns a supersedes reuse)) ::
+  chunkRecords a (seq0 + 1) a.chunks.length a.chunks 0
 
 /-- WAL growth / pre-sizing rewrites the TOC (and with it the enrichment queue) -/
 def Mem.setWalSize (m : Mem) (ws : Nat) : Mem :=
@@ -594,29 +609,47 @@ def Mem.setWalSize (m : Mem) (ws : Nat) : Mem :=
 def Mem.autoCommit (m : Mem) (t : Trace) : Mem :=
   if t.ac then (m.commit t.ft).1 else m
 
+/-- the WAL appends of an accepted put and the in-memory bookkeeping around them (instant index,
+    enrichment queue) -/
+def Mem.appendPut (m : Mem) (a : PutArgs) (supersedes reuse : Option Nat) : Mem :=
+  let recs := putRecords m.seq a supersedes reuse
+  let pseq := m.seq + 1
+  let instant := a.ii && m.engine && a.st
+  { m with
+    pending := m.pending ++ recs
+    seq := m.seq + recs.length
+    pendingInserts := m.pendingInserts + recs.length
+    dirty := true
+    lexDocs := if instant then m.lexDocs ++ [pseq] else m.lexDocs
+    tantivyDirty := if instant then true else m.tantivyDirty
+    queue := if a.q then m.queue ++ [pseq] else m.queue }
+
+/-- after the appends of put/delete: the WAL may have grown; the automatic checkpoint fires unless
+    batch mode suppresses it -/
+def Mem.afterAppend (m : Mem) (t : Trace) : Mem :=
+  if m.batch == some true then m.setWalSize t.ws else (m.setWalSize t.ws).autoCommit t
+
+/-- triplet extraction at the very end of a put: cards and the enrichment record carry the WAL
+    sequence number as frame id -/
+def Mem.addCards (m : Mem) (nc pseq : Nat) : Mem :=
+  if nc = 0 then m else
+  { m with cards := m.cards ++ List.replicate nc pseq
+           enrRecs := if m.enrRecs.contains pseq then m.enrRecs else m.enrRecs ++ [pseq] }
+
 /-- second half of `put_internal`: capacity check, WAL appends, instant index, enrichment queue,
     automatic checkpoint, triplet cards -/
 def Mem.putTail (m : Mem) (a : PutArgs) (supersedes reuse : Option Nat) (t : Trace) : Mem × Out :=
   if m.base + m.payloadEnd + a.plen > m.capacityLimit then (m, .err "capacity") else
-  let recs := putRecords m.seq a supersedes reuse
-  let pseq := m.seq + 1
-  let instant := a.ii && m.engine && a.st
-  let m1 : Mem :=
-    { m with
-      pending := m.pending ++ recs
-      seq := m.seq + recs.length
-      pendingInserts := m.pendingInserts + recs.length
-      dirty := true
-      lexDocs := if instant then m.lexDocs ++ [pseq] else m.lexDocs
-      tantivyDirty := if instant then true else m.tantivyDirty
-      queue := if a.q then m.queue ++ [pseq] else m.queue }
-  let suppress := m1.batch == some true
-  let m2 := if suppress then m1.setWalSize t.ws else (m1.setWalSize t.ws).autoCommit t
-  let m3 : Mem :=
-    if a.nc = 0 then m2 else
-    { m2 with cards := m2.cards ++ List.replicate a.nc pseq
-              enrRecs := if m2.enrRecs.contains pseq then m2.enrRecs else m2.enrRecs ++ [pseq] }
-  (m3, .seq pseq)
+  ((((m.appendPut a supersedes reuse).afterAppend t).addCards a.nc (m.seq + 1)), .seq (m.seq + 1))
+
+/-- `enable_vec()` as `put_internal` calls it for the first embedded put (its effects survive a later
+    rejection of that put) -/
+def Mem.enableVec (m : Mem) : Mem :=
+  if m.vecEnabled then m else { m with vecEnabled := true, dirty := true, vecManifest := true }
+
+/-- "persist the dimension early": the manifest dimension is set when still 0 -/
+def Mem.noteDim (m : Mem) (d : Nat) : Mem :=
+  if m.vecManifest ∧ m.vecDim = 0 then { m with vecDim := d } else m
 
 /-- `put_internal` (after the caller prepared the arguments): mutation gate and the vector
     dimension contract, then `putTail`. -/
@@ -625,12 +658,8 @@ def Mem.putCore (m : Mem) (a : PutArgs) (supersedes reuse : Option Nat) (t : Tra
   match embDims a with
   | d :: rest =>
     if rest.any (· != d) then (m, .err "dim-mismatch") else
-    -- `enable_vec()` (its effects survive a later rejection of this put)
-    let m1 : Mem :=
-      if m.vecEnabled then m else { m with vecEnabled := true, dirty := true, vecManifest := true }
-    if m1.vecDim ≠ 0 ∧ m1.vecDim ≠ d then (m1, .err "dim-mismatch") else
-    let m2 := if m1.vecManifest ∧ m1.vecDim = 0 then { m1 with vecDim := d } else m1
-    m2.putTail a supersedes reuse t
+    if m.enableVec.vecDim ≠ 0 ∧ m.enableVec.vecDim ≠ d then (m.enableVec, .err "dim-mismatch") else
+    (m.enableVec.noteDim d).putTail a supersedes reuse t
   | [] => m.putTail a supersedes reuse t
 
 def Mem.put (m : Mem) (a : PutArgs) (t : Trace) : Mem × Out := m.putCore a none none t
@@ -690,6 +719,23 @@ def inheritArgs (old : Frame) (u : UpdArgs) (emb : Option Emb) : PutArgs :=
     chunks := match u.payload with | some p => p.2.2.2 | none => []
     ii := u.ii, st := u.st, q := u.q, nc := u.nc, zstd := u.zstd }
 
+/-- `frame_embedding(id)` as `update_frame` uses it when no explicit embedding is given
+    (`ensure_vec_index` loads the persisted artifact when no index is in memory) -/
+def Mem.carriedEmb (m : Mem) (id : Nat) (explicit : Option Emb) : Option Emb :=
+  match explicit with
+  | some e => some e
+  | none =>
+    if m.vecEnabled then
+      let idxv := match m.vec with | some v => some v | none => m.pVec
+      match (idxv.getD []).find? (·.id == id) with
+      | some e => some (e.dim, e.tok)
+      | none => none
+    else none
+
+/-- side effect of `ensure_vec_index`: the persisted vector index becomes the in-memory one -/
+def Mem.loadVec (m : Mem) : Mem :=
+  if m.vecEnabled && m.vec.isNone then { m with vec := m.pVec } else m
+
 /-- `update_frame` -/
 def Mem.update (m : Mem) (id : Nat) (u : UpdArgs) (t : Trace) : Mem × Out :=
   if !m.mutationAllowed then (m, .err "ticket-required") else
@@ -697,22 +743,10 @@ def Mem.update (m : Mem) (id : Nat) (u : UpdArgs) (t : Trace) : Mem × Out :=
   | none => (m, .err "not-found")
   | some old =>
     if old.status != .active then (m, .err "inactive") else
-    -- `frame_embedding` of the old frame when no explicit embedding is given
-    let emb : Option Emb :=
-      match u.emb with
-      | some e => some e
-      | none =>
-        if m.vecEnabled then
-          -- `ensure_vec_index` loads the persisted artifact when no index is in memory
-          let idxv := match m.vec with | some v => some v | none => m.pVec
-          match (idxv.getD []).find? (·.id == id) with
-          | some e => some (e.dim, e.tok)
-          | none => none
-        else none
-    let m0 : Mem := if m.vecEnabled && m.vec.isNone then { m with vec := m.pVec } else m
     -- a payload-less update reads the old canonical bytes for processing
-    if u.payload.isNone && canon m.frames old == "err" then (m0, .err "canon-error") else
-    m0.putCore (inheritArgs old u emb) (some id) (if u.payload.isNone then some id else none) t
+    if u.payload.isNone && canon m.frames old == "err" then (m.loadVec, .err "canon-error") else
+    m.loadVec.putCore (inheritArgs old u (m.carriedEmb id u.emb)) (some id)
+      (if u.payload.isNone then some id else none) t
 
 /-- `delete_frame` -/
 def Mem.delete (m : Mem) (id : Nat) (t : Trace) : Mem × Out :=
@@ -722,9 +756,7 @@ def Mem.delete (m : Mem) (id : Nat) (t : Trace) : Mem × Out :=
     if f.status != .active then (m, .err "inactive") else
     let m1 : Mem :=
       { m with pending := m.pending ++ [(m.seq + 1, .tombstone id)], seq := m.seq + 1, dirty := true }
-    let suppress := m1.batch == some true
-    let m2 := m1.setWalSize t.ws
-    (if suppress then m2 else m2.autoCommit t, .seq (m.seq + 1))
+    (m1.afterAppend t, .seq (m.seq + 1))
 
 /-! ## drop / open / crash -/
 
